@@ -492,6 +492,21 @@ def exec_group(case):
                 ys, yt = cut(src, x), cut(tgt, x)
             if isinstance(yt, Raised) or isinstance(ys, Raised) or not torch.equal(ys, yt):
                 out.fail(f"{tag}/forward", f"{case['qtype']} module after loading a {on} state_dict: {yt if isinstance(yt, Raised) else 'outputs differ from the saved module'}")
+            # ... and the module re-typed by quantizing an already quantized (and frozen) model AGAIN with the other qtype: the new
+            # configuration is honoured by what the module computes with, not only by what it declares
+            from optimum.quanto import freeze as _freeze, quantize as _quantize
+
+            model2 = torch.nn.Sequential(fresh(qtype))
+            r = cut(lambda: (_freeze(model2), _quantize(model2, weights=oq)))
+            tag = f"auto-group/{case['kind']}/requantized-after-freeze"
+            if isinstance(r, Raised):
+                out.fail(f"{tag}/raises:{r.type}", f"{case['qtype']} frozen module quantized again to {on}: {r.text}")
+                continue
+            m3 = model2[0]
+            qw3 = cut(lambda: m3.qweight)
+            want_cls = QBytesTensor if oq.bits == 8 else QBitsTensor
+            if isinstance(qw3, Raised) or m3.weight_qtype != oq or not isinstance(qw3, want_cls) or qw3.qtype != oq or getattr(qw3, "_group_size", None) != m3.weight_group_size:
+                out.fail(f"{tag}/not-honoured", f"{case['qtype']} frozen module quantized again to {on}: declares {m3.weight_qtype} / group {m3.weight_group_size}, computes with {type(qw3).__name__} {getattr(qw3, 'qtype', None)} group {getattr(qw3, '_group_size', None)}")
     return out
 
 
